@@ -48,6 +48,16 @@ CHECKS = {
             "LV/TLV and concrete-TLV layouts are model-checked (round trip, exact consumption, cross-class decode is a type "
             "mismatch) and every vector incl. the 6 x 5 x 3 mismatch matrix is executed on the classes via unpack / from_tlv / "
             "TlvHolder; random round trips are validated by TLC.", "DESIGN.md 5/C08", ""),
+    "C11": (True, "model_checking",
+            "TLA+ lifecycle state machine per mutable class (kept length recomputed from format parts); TLC exhaustive over all "
+            "setter / pack / reload sequences; every transition replayed on real objects; TLC trace validation of random histories",
+            "Lifecycle.tla models each object as (configuration, values, kept length) with one action per documented setter, "
+            "pack and reload; TLC explores the complete graph of each of the 9 classes and checks that the kept length always "
+            "equals what the independently specified encoder produces, that a fresh object with the final values encodes "
+            "identically and that reload is stable; every transition is executed on the real class comparing octets, reported "
+            "length, inner length field, fresh-object octets, pack-twice, equality across pack and the caller's objects; random "
+            "histories with random arguments are validated by Trace_Lifecycle.", "DESIGN.md 5/C11",
+            "Caller objects are compared across construction and pack (setters may write through to a params object the caller shares)."),
     "C12": (True, "model_checking",
             "TLA+ dispatch spec (PduDec with want='any', raw inspectors, holder matrix); TLC grid + vector replay; trace validation",
             "The factory's dispatch is specified as PduDec(b, any) and model-checked to agree with the per-kind decoders for all "
@@ -115,5 +125,5 @@ CHECKS = {
             "validated by TLC.", "DESIGN.md 5/C20", ""),
 }
 NOT_YET = {}
-for _i in [4, 9, 10, 11]:
+for _i in [4, 9, 10]:
     NOT_YET[f"C{_i:02d}"] = "check not built yet in this revision of /verif (construction in progress, see DESIGN.md 11)"
